@@ -38,7 +38,7 @@ def compare(R, X, b, stats, case, tag):
             continue
         wn, wd = expect.sources_view(alt)
         is_plain = X.kind == 'plain' or (X.kind == 'either' and alt is X.sig[-1])
-        if prog['route'] in ('param', 'param_shadow_lambda') and not is_plain:
+        if prog['route'] in ('param', 'param_shadow_lambda', 'param_shadow_kwonly', 'param_default') and not is_plain:
             wd = dict((f, d + 1) for f, d in wd.items())
             wd[expect.ident(b.target)] = 0
         if gn != wn:
@@ -60,7 +60,7 @@ def compare(R, X, b, stats, case, tag):
     else:
         lab = lambda sig: dict((expect.label(f), d) for f, d in sig.sources['+depths'].items())
         stats.fail('C06/%s/depths/expected-%s' % (tag, X.kind), case,
-                   head + '\ndepths: got %r, expected %r%s\n%s' % (lab(R), lab(alt), ' (+1 and the partial object at 0)' if prog['route'] in ('param', 'param_shadow_lambda') else '', b.src))
+                   head + '\ndepths: got %r, expected %r%s\n%s' % (lab(R), lab(alt), ' (+1 and the partial object at 0)' if prog['route'] in ('param', 'param_shadow_lambda', 'param_shadow_kwonly', 'param_default') else '', b.src))
     return False
 
 
@@ -129,7 +129,7 @@ def check_prog(prog, stats):
         for a in X.sig:
             names, depths = label_view(a)
             is_plain = X.kind == 'plain' or (X.kind == 'either' and a is X.sig[-1])
-            if prog['route'] in ('param', 'param_shadow_lambda') and not is_plain:
+            if prog['route'] in ('param', 'param_shadow_lambda', 'param_shadow_kwonly', 'param_default') and not is_plain:
                 # through the partial object: one level deeper, the partial object itself at 0
                 depths = sorted([(l, d + 1) for l, d in depths] + [(expect.label(b.target), 0)])
             admissible.append((expect.param_list(a), (names, depths)))
@@ -186,6 +186,9 @@ def run(ctx):
     # nested scopes and default-value positions (calls the walker defers or could overlook)
     tasks += [(s + 900, n // 64, {'ctxs': progs.NESTED_CTXS + ('lambda_default', 'return'), 'allow_taints': False,
                                   'routes': ('global', 'closure', 'param', 'self_method', 'attr')})
+              for s in ctx.shard_seeds(16)]
+    # nested scopes with taint statements between the definition and the call of the nested function
+    tasks += [(s + 1100, n // 64, {'ctxs': progs.NESTED_CTXS, 'routes': ('global', 'closure', 'self_method', 'attr'), 'max_calls': 2})
               for s in ctx.shard_seeds(16)]
     total.merge(ctx.pmap(shard_hyp, tasks))
     return total
